@@ -1,3 +1,4 @@
+import Copia.Driver.C17
 import Copia.Driver.C18
 /-!
 Line-protocol driver: one query per input line, one canonical answer per output line.
@@ -9,6 +10,7 @@ def dispatch (line : String) : String :=
   let toks := (line.trimAscii.toString.splitOn " ").filter (· ≠ "")
   let r : Option String :=
     match toks with
+    | "ck" :: _ => C17.handle toks
     | "rp" :: _ | "rec" :: _ => C18.handle toks
     | _ => none
   r.getD "BAD-QUERY"
